@@ -185,7 +185,63 @@ def _baseline_and_mutants(a, explore, new_check):
             return r
         patch(AbstractSolver, "Collapse", Collapse)
 
+    # ---- measure collapses in the solver loop (CollapseWeight / CollapsePosition, harness/c11_measure.py) -----------
+    def m_measure_weight_almost_zero():   # a collapsed weight is left at 1e-300 instead of exactly 0.0
+        orig = cn.impose_unweighted
+
+        def impose_unweighted(index, samples, weights, nullable=True):
+            pos, wts = orig(index, samples, weights, nullable)
+            idx = set(len(wts) + i if i < 0 else i for i in (index or ()))
+            return pos, [(1e-300 if (i in idx and w == 0.0) else w) for i, w in enumerate(wts)]
+        patch(cn, "impose_unweighted", impose_unweighted)
+
+    def m_measure_total_weight_lost():    # the collapsed weights are zeroed without giving what they held to the others
+        def impose_unweighted(index, samples, weights, nullable=True):
+            idx = set(len(weights) + i if i < 0 else i for i in (index or ()))
+            return list(samples), [0.0 if i in idx else w for i, w in enumerate(weights)]
+        patch(cn, "impose_unweighted", impose_unweighted)
+
+    def m_measure_track_wrong_partner():  # a tracked pair (i, j) is applied to (i, j+1): the wrong position follows
+        orig = cn.impose_collapse
+
+        def impose_collapse(pairs, samples, weights):
+            n = len(weights)
+            return orig(set((i, (j + 1) % n) for (i, j) in pairs if (j + 1) % n != i) or set(pairs), samples, weights)
+        patch(cn, "impose_collapse", impose_collapse)
+
+    def m_measure_weight_collapse_dropped():   # Collapse() builds impose_measure from the position collapses only
+        orig = cn.impose_measure
+        patch(cn, "impose_measure", lambda npts, tracking={}, noweight={}: orig(npts, tracking, {}))
+
+    def m_measure_dict_mask_replaced():   # update_mask: a dict mask (measure conditions) is replaced by the reported collapse
+        orig = ma._extend_mask
+
+        def _extend_mask(condition, mask):
+            if type(mask) is dict and mask and all(type(v) is set for v in mask.values()):
+                return ma._replace_mask(condition, mask)
+            return orig(condition, mask)
+        patch(ma, "_extend_mask", _extend_mask)
+
+    def m_measure_npts_ignored():         # the solver does not look at the step monitor's `_npts`: no measure constraint is built
+        orig = AbstractSolver._AbstractSolver__collapse_constraints
+
+        def __collapse_constraints(self, state, collapses):
+            mon = self._stepmon
+            keep = getattr(mon, "_npts", None)
+            try:
+                mon._npts = None
+                return orig(self, state, collapses)
+            finally:
+                mon._npts = keep
+        patch(AbstractSolver, "_AbstractSolver__collapse_constraints", __collapse_constraints)
+
     mutants = [
+        ("measure loop: a collapsed weight is left at 1e-300, not exactly 0.0", m_measure_weight_almost_zero),
+        ("measure loop: collapsed weights zeroed without keeping the factor's total weight", m_measure_total_weight_lost),
+        ("measure loop: tracked pair applied to the wrong partner position", m_measure_track_wrong_partner),
+        ("measure loop: weight collapses dropped when the measure constraint is built", m_measure_weight_collapse_dropped),
+        ("measure loop: update_mask replaces a dict mask instead of extending it", m_measure_dict_mask_replaced),
+        ("measure loop: the step monitor's _npts is ignored (no measure constraint built)", m_measure_npts_ignored),
         ("collapse_at: '<= tolerance' becomes '<'", m_at_strict),
         ("collapse_as: mask not subtracted", m_as_mask_ignored),
         ("look-back window reads generations+1 entries", m_window_plus_one),
@@ -277,7 +333,7 @@ def run(a, explore, new_check):
     def corrupt_stop(mt, case, kind, points, emb=None):
         if case["ra"] and not corrupt_stop.done:
             case = dict(case)
-            case["mk"] = {"at": {"none": False, "idx": []}, "as": case["mk"]["as"]}
+            case["mk"] = dict(case["mk"], at={"none": False, "idx": []})
             corrupt_stop.done = True
         return orig_stop(mt, case, kind, points, emb)
     corrupt_stop.done = False
@@ -290,6 +346,36 @@ def run(a, explore, new_check):
     print("SELFTEST corrupted expected mask of one loop stop (TLC output): %s (%s)" % ("caught" if new else "MISSED", "; ".join(new[:3])))
     missed += 0 if new else 1
 
+    # ---- corrupt what TLC expects for a measure stop: one expected reported weight collapse, one pattern table
+    from harness import c11_measure as Mz
+    orig_mstop = Mz.replay_mstop
+
+    def corrupt_mstop(field):
+        def run_one(mt, case, kind, domain):
+            if not run_one.done and case["rw"] and (field != "mbad" or (case["conf"]["initWt"]["fmt"] in ("none", "dict") and not case["script"])):
+                case = dict(case)
+                if field == "rw":
+                    case["rw"] = case["rw"][:-1]
+                else:        # every pattern of a factor with a collapsed weight is declared to break the zero-weight clause
+                    m = case["rw"][0][0]
+                    P = case["conf"]["npts"][1]
+                    import itertools
+                    case["mbad"] = [{"m": m, "w": list(w), "p": list(q), "mass": f, "why": ["collapsed-weight-zero[index-not-tracked]"]}
+                                    for w in itertools.product((0, 1), repeat=P) for q in itertools.product(range(P), repeat=P) for f in (True, False)]
+                run_one.done = True
+            return orig_mstop(mt, case, kind, domain)
+        run_one.done = False
+        return run_one
+    for field, what in (("rw", "expected reported weight collapse"), ("mbad", "expected table of relation-breaking patterns")):
+        Mz.replay_mstop = corrupt_mstop(field)
+        try:
+            keys, n = _classes(a, explore, new_check)
+        finally:
+            Mz.replay_mstop = orig_mstop
+        new = sorted(keys - base)
+        print("SELFTEST corrupted %s of one measure loop stop (TLC output): %s (%s)" % (what, "caught" if new else "MISSED", "; ".join(new[:3])))
+        missed += 0 if new else 1
+
     # ---- corrupt one recorded field of otherwise valid traces
     def corrupt_trace(field):
         orig_rec = L.record_run
@@ -298,7 +384,7 @@ def run(a, explore, new_check):
             tr = orig_rec(mt, spec)
             for k, e in enumerate(tr):
                 if field == "mask" and e["ev"] == "Collapse" and e["ra"]:
-                    e = dict(e); e["after"] = {"at": dict(e["after"]["at"], idx=e["after"]["at"]["idx"][:-1]), "as": e["after"]["as"]}
+                    e = dict(e); e["after"] = dict(e["after"], at=dict(e["after"]["at"], idx=e["after"]["at"]["idx"][:-1]))
                     tr[k] = e; break
                 if field == "point" and e["ev"] == "CostCall" and any(x["ev"] == "Collapse" and x["ra"] and x["vals"][x["ra"][0]] >= 0 for x in tr[:k]):
                     c = next(x for x in tr[:k] if x["ev"] == "Collapse" and x["ra"] and x["vals"][x["ra"][0]] >= 0)
